@@ -165,6 +165,20 @@ def showL (t : String) : List Code → String
   | c :: cs => show1 t c ++ showL t cs
 end
 
+/-- specification verdict, verdict of the model's code, and the hypotheses of `emitted_code_gates`;
+    `withEnv`: the value is followed by `ENV …` (the attribute with its named types, for the Go side) -/
+def judgeLine (toks : List String) (withEnv : Bool) : Option String := do
+  let fuel := toks.length + 2
+  let (a, ts) ← parseAtt fuel toks
+  let (v, ts) ← parseVal fuel ts
+  if (if withEnv then ts.head? != some "ENV" else !ts.isEmpty) then none else
+  let names (l : List Viol) : String :=
+    if l.isEmpty then "called" else "rejected:" ++ ",".intercalate (l.foldl (fun acc v => insertSorted v.name acc) [])
+  let bit (b : Bool) : String := if b then "1" else "0"
+  some ("spec=" ++ names (violations fuel a v) ++ " model=" ++ names (GoaVerif.ValCode.runL (GoaVerif.ValCode.compileBody fuel a) v) ++
+    " hyp=" ++ bit (GoaVerif.ValCode.okCtx fuel true a) ++ bit (GoaVerif.ValCode.typed fuel a v) ++
+    bit (GoaVerif.ValCode.noBothEx fuel a) ++ bit (GoaVerif.ValCode.collOK fuel a v))
+
 def handle : List String → Option String
   | "validate" :: toks => do
     let fuel := toks.length + 2
@@ -177,18 +191,8 @@ def handle : List String → Option String
     let (a, ts) ← parseAtt fuel toks
     if !ts.isEmpty then none else
     some ("code " ++ showL "body" (GoaVerif.ValCode.compileBody fuel a))
-  | "judge" :: toks => do
-    -- specification verdict, verdict of the model's code, and the hypotheses of `emitted_code_gates`
-    let fuel := toks.length + 2
-    let (a, ts) ← parseAtt fuel toks
-    let (v, ts) ← parseVal fuel ts
-    if !ts.isEmpty then none else
-    let names (l : List Viol) : String :=
-      if l.isEmpty then "called" else "rejected:" ++ ",".intercalate (l.foldl (fun acc v => insertSorted v.name acc) [])
-    let bit (b : Bool) : String := if b then "1" else "0"
-    some ("spec=" ++ names (violations fuel a v) ++ " model=" ++ names (GoaVerif.ValCode.runL (GoaVerif.ValCode.compileBody fuel a) v) ++
-      " hyp=" ++ bit (GoaVerif.ValCode.okCtx fuel true a) ++ bit (GoaVerif.ValCode.typed fuel a v) ++
-      bit (GoaVerif.ValCode.noBothEx fuel a) ++ bit (GoaVerif.ValCode.collOK fuel a v))
+  | "judge" :: toks => judgeLine toks false
+  | "judgeu" :: toks => judgeLine toks true
   | "runcode" :: toks => do
     let fuel := toks.length + 2
     let (a, ts) ← parseAtt fuel toks
